@@ -151,6 +151,12 @@ func mixesIndentChars(doc []byte) bool {
 // runMassiveMkdir (C07 / C09): Mkdir with the massive option never creates anything outside the
 // target, creates nothing at all in dry-run, and rejects a tree with an invalid name.
 func runMassiveMkdir(c Case) []Diff {
+	orig := c.Exts
+	c.Exts = ownExts(orig)
+	return append(runMassiveMkdir1(c), extsDiff(orig, c.Exts)...)
+}
+
+func runMassiveMkdir1(c Case) []Diff {
 	jail := newJail()
 	defer os.RemoveAll(jail)
 	populate(jail, c.Pre)
